@@ -1182,8 +1182,27 @@ def cmd_marsh(args):
             return "value-differs"
         return None
 
+    def check_load_stream(v):
+        """Two values back to back in one file: load() must take exactly one value per call, as marshal.load does."""
+        try:
+            b1, b2 = marshal.dumps(v, 0), marshal.dumps((12345, "witness"), 0)
+        except Exception:
+            return None
+        f = io.BytesIO(b1 + b2)
+        try:
+            first = xm.load(f)
+            pos = f.tell()
+            second = xm.load(f)
+        except Exception as e:
+            return "xdis.load-raises-on-second-value:" + type(e).__name__
+        if pos != len(b1):
+            return "position-after-first-value-differs"
+        if can(marshal.loads(b1)) != can(first) or second != (12345, "witness"):
+            return "value-differs"
+        return None
+
     directions = [("dumps", check_dumps), ("loads-v0", mk_check_loads(0)), ("loads-v1", mk_check_loads(1)),
-                  ("dump-file", check_dump_file), ("load-file", check_load_file)]
+                  ("dump-file", check_dump_file), ("load-file", check_load_file), ("load-file-stream", check_load_stream)]
     n = args["n"]
     for i in range(n):
         v = GV.value(rng)
@@ -1210,6 +1229,58 @@ def cmd_marsh(args):
             pass
         if i < 3:
             acc.sample({"host": vs(HOSTV), "class": cls, "value": repr(v)[:120]})
+    # "every nesting": chains far deeper than the random values reach (the host's marshal takes 2000 levels).  Compared
+    # level by level without recursion in the harness.
+    def chain(depth, kind):
+        v = 7
+        for _ in range(depth):
+            v = (v,) if kind == "tuple" else [v] if kind == "list" else {1: v}
+        return v
+
+    def same_chain(a, b):
+        while True:
+            if type(a) is not type(b):
+                return False
+            if isinstance(a, (tuple, list)):
+                if len(a) != 1 or len(b) != 1:
+                    return a == b
+                a, b = a[0], b[0]
+            elif isinstance(a, dict):
+                if list(a) != [1] or list(b) != [1]:
+                    return False
+                a, b = a[1], b[1]
+            else:
+                return a == b
+
+    if str(args.get("part", 0)).endswith("0"):
+        for depth in (100, 300, 700, 1500):
+            dcls = "nesting<=300" if depth <= 300 else "nesting>=700"
+            for kind in ("tuple", "list", "dict"):
+                v = chain(depth, kind)
+                acc.count("c14_deep_chains:" + dcls)
+                acc.evaluations += 2
+                acc.distinct.add(sha(["chain", depth, kind]))
+                try:
+                    b = xm.dumps(v)
+                    try:
+                        back = marshal.loads(b)
+                        r = None if same_chain(v, back) else "value-differs"
+                    except Exception as e:
+                        r = "marshal.loads-rejects:" + type(e).__name__
+                except Exception as e:
+                    r = "xdis.dumps-raises:" + type(e).__name__
+                if r:
+                    acc.mismatch("C14|dumps|%s|%s" % (dcls, r), host=vs(HOSTV), depth=depth, container=kind)
+                try:
+                    hb = marshal.dumps(v, 0)
+                except Exception:
+                    continue
+                try:
+                    r = None if same_chain(v, xm.loads(hb)) else "value-differs"
+                except Exception as e:
+                    r = "xdis.loads-raises:" + type(e).__name__
+                if r:
+                    acc.mismatch("C14|loads-v0|%s|%s" % (dcls, r), host=vs(HOSTV), depth=depth, container=kind)
     # a direction that fails for (nearly) every shape is one mechanism, not one per shape
     per_dir = {}
     for key, n in acc.per_key.items():
@@ -1323,6 +1394,10 @@ def install_replace_contract():
         return "wrapper"
 
 
+class _PathStr(str):
+    pass
+
+
 def cmd_roundtrip(args):
     import warnings
 
@@ -1339,7 +1414,12 @@ def cmd_roundtrip(args):
         try:
             with open(src, "rb") as f:
                 text = f.read()
-            top = compile(text, src, "exec", dont_inherit=True)
+            fname = src
+            if (acc.counters.get("files", 0) % 5) == 3:
+                # a native code object may carry a str *subclass* as co_filename (compile() keeps the object it was given)
+                fname = _PathStr(src)
+                acc.count("c16_filename_is_str_subclass")
+            top = compile(text, fname, "exec", dont_inherit=True)
         except (SyntaxError, ValueError, RecursionError, MemoryError, OverflowError):
             acc.count("host_rejected_source")
             continue
